@@ -212,7 +212,7 @@ def make_disp(rng, impl, vmf, solid, index):
 
 ENT_MENU = ['info_target', 'logic_relay', 'func_door', 'light_spot', 'env_beam', 'info_overlay', 'ai_goal_follow',
             'prop_door_rotating', 'func_instance', 'func_brush', 'info_node_link', 'point_template', 'unknown_class_xyz',
-            'light_environment', 'func_instance']
+            'light_environment', 'func_instance', 'info_node', 'info_node', 'info_node_link']
 
 
 def _ang_str(rng):
@@ -283,9 +283,11 @@ def gen_template(rng, impl, n_brush=None, n_ent=None, numeric_vars=False, files=
             kv['fixup_style'] = rng.choice(['0', '1', '2'])
             if rng.random() < 0.3:
                 kv['$conv'] = 'hammer $nm'
+        elif cls == 'info_node':
+            kv['nodeid'] = str(rng.randrange(1, 5))
         elif cls == 'info_node_link':
             kv['startnode'] = str(rng.randrange(1, 5))
-            kv['endnode'] = rng.choice(['2', '7', 'x'])
+            kv['endnode'] = rng.choice(['1', '2', '3', '7', 'x'])
             kv['allowuse'] = rng.choice(['npc_combine_s', 'squad1', ''])
         elif cls == 'point_template':
             kv['template01'] = rand_name(rng)
@@ -307,7 +309,29 @@ def gen_template(rng, impl, n_brush=None, n_ent=None, numeric_vars=False, files=
             ent.hidden = True
         elif rng.random() < 0.06:
             ent.vis_shown = False
+    if rng.random() < 0.45:
+        # visgroups (one of them nested) with some of the brushes / entities / entity brushes as members
+        groups = [vmf.create_visgroup(rng.choice(['detail', 'Lights', 'grp $nm']), (rng.randrange(256), 10, 20))
+                  for _ in range(rng.choice([1, 2]))]
+        if rng.random() < 0.5:
+            child = impl['VisGroup'](vmf, 'child')
+            groups[0].child_groups.append(child)
+            groups.append(child)
+        items = list(vmf.brushes) + list(vmf.entities) + [b for e in vmf.entities for b in e.solids]
+        for it in items:
+            if rng.random() < 0.5:
+                for g in rng.sample(groups, rng.choice([1, 1, min(2, len(groups))])):
+                    it.visgroup_ids.add(g.id)
     return vmf
+
+
+def vis_tree_flat(groups):
+    """[(id, name, color, [child ids])] of a visgroup forest, depth first."""
+    out = []
+    for g in groups:
+        out.append((g.id, g.name, tuple(g.color), [c.id for c in g.child_groups]))
+        out += vis_tree_flat(g.child_groups)
+    return out
 
 
 # ----------------------------------------------------------------------------------- classification
@@ -384,7 +408,10 @@ def visible_brushes(vmf):
     return [b for b in vmf.brushes if not (b.hidden or not b.vis_shown)]
 
 
-def visible_ents(vmf):
+def visible_ents(vmf, keep_hidden=False):
+    """Entities collapse_one copies: the visible ones when visgroups are stripped (visgroup=False), all otherwise."""
+    if keep_hidden:
+        return list(vmf.entities)
     return [e for e in vmf.entities if not (e.hidden or not e.vis_shown)]
 
 
@@ -416,11 +443,11 @@ def _payload_old(impl, kind, value, subst, classes):
     return codes(value)
 
 
-def template_model(impl, clf, vmf, subst):
+def template_model(impl, clf, vmf, subst, keep_hidden=False):
     """The model's view of the visible part of a template. `subst` is the instance's own substitute (used only
     to pre-parse numeric values and to decide the classname test, exactly where the code substitutes)."""
     ents = []
-    for e in visible_ents(vmf):
+    for e in visible_ents(vmf, keep_hidden):
         keys = []
         for k, v in e.items():
             kind = clf.kind(e, k)
